@@ -856,7 +856,57 @@ Options optionsFromHead(const Op& head) {
 
 }  // namespace
 
+// Bounded-exhaustive short histories: run index r designates the r-th sequence (shortest first)
+// over a fixed alphabet of concrete operations on one document. References are taken modulo the
+// live table, so every sequence is executable.
+static const char* kEnumAlphabet[] = {
+    "op=addn h=0 kind=a via=0",
+    "op=addn h=0 kind=o via=1",
+    "op=add h=0 v=u1 via=0",
+    "op=add h=1 v=s\"x\" via=0",
+    "op=add h=1 v=i-5000000000 via=0",
+    "op=sets h=0 s=k\"a\" v=u2 via=0",
+    "op=sets h=0 s=k\"a\" v=s\"x\" via=1",
+    "op=sets h=1 s=k\"b\" v=[u1,s\"x\"] via=0",
+    "op=sets h=0 s=i2 v=D3ff199999999999a via=0",
+    "op=rem h=0 s=i0 via=0",
+    "op=rem h=0 s=k\"a\" via=0",
+    "op=rem h=1 s=i0 via=2",
+    "op=clr h=1",
+    "op=to h=0 kind=o via=0",
+    "op=tos h=0 s=k\"a\" kind=a",
+    "op=take h=0 s=i0 view=v",
+    "op=take h=0 s=k\"a\" view=a",
+    "op=copy h=1 src=2 via=0",
+    "op=copy h=0 src=1 via=1",
+    "op=doc what=shrink d=0 s=0",
+    "op=doc what=clear d=0 s=0",
+    "op=doc what=copy d=0 s=0",
+    "op=deser h=1 fmt=json v=[u1,{\"k\":n}] rk=0 via=0",
+    "op=ser h=0 fmt=json",
+};
+static const uint64_t kEnumA = sizeof kEnumAlphabet / sizeof *kEnumAlphabet;
+
+static Plan generateEnum(uint64_t seed, uint64_t run) {
+  Plan p;
+  p.head.set("family", "hist").set("mode", "enum").setu("seed", seed).setu("run", run);
+  p.head.set("docs", 1).set("share", 0).set("move", 1).setu("srcseed", 7);
+  uint64_t len = 1, block = kEnumA, r = run;
+  while (r >= block && len < 8) {
+    r -= block;
+    block *= kEnumA;
+    len++;
+  }
+  for (uint64_t j = 0; j < len; j++) {
+    p.ops.push_back(Op::parse(kEnumAlphabet[r % kEnumA]));
+    r /= kEnumA;
+  }
+  return p;
+}
+
 Plan generate(const std::string& mode, uint64_t seed, uint64_t run) {
+  if (mode == "enum")
+    return generateEnum(seed, run);
   Rng r(seed);
   Plan p;
   p.head.set("family", "hist").set("mode", mode).setu("seed", seed).setu("run", run);
